@@ -77,6 +77,10 @@ impl core::fmt::Debug for RedoError { fn fmt(&self, f: &mut core::fmt::Formatter
 #[verifier::external_body]
 pub fn fmt_stub__() -> String { unimplemented!() }
 
+/// R-std: Option::map_or (std documentation): the default for None, else the function's result
+pub assume_specification<T, U, F: FnOnce(T) -> U>[ Option::<T>::map_or ](o: Option<T>, default: U, f: F) -> (r: U)
+    requires o matches Some(x) ==> f.requires((x,)),
+    ensures o is None ==> r == default, o matches Some(x) ==> f.ensures((x,), r);
 // ---- Stamp: abstract except for equality, MISSING and the override rule -----------------------
 #[verifier::external_body]
 pub struct Stamp { _p: () }
